@@ -126,6 +126,10 @@ pub struct Proc {
     in_cmd: Option<String>,
     cur: Option<Running>,
     hung: bool,
+    /// a catchable signal that arrived while a foreground command was running: bash acts on
+    /// it (EXIT trap, then death) only once that command has finished
+    pending_sig: Option<u8>,
+    sleeping: bool,
 }
 
 struct Bg {
@@ -601,6 +605,8 @@ impl World {
             in_cmd: None,
             cur: None,
             hung: false,
+            pending_sig: None,
+            sleeping: false,
         });
         let lat = 1 + self.choose(self.sc.swarm.spawn_latency_max_ns.max(1));
         self.schedule(self.now + lat, Ev::Step(pid));
@@ -616,9 +622,16 @@ impl World {
 
     pub fn kill(&mut self, pid: u32, sig: u8) {
         self.log(LogEv::Kill { pid, sig });
-        if self.procs[pid as usize].status.is_none() {
-            self.finish(pid, ExitStatus::Signaled(sig), sig != 9);
+        let p = &mut self.procs[pid as usize];
+        if p.status.is_some() {
+            return;
         }
+        if sig != 9 && (p.sleeping || p.hung) {
+            // bash defers the handling of TERM/INT/HUP while it waits for a foreground command
+            p.pending_sig = Some(sig);
+            return;
+        }
+        self.finish(pid, ExitStatus::Signaled(sig), sig != 9);
     }
 
     // -------------------------------------------------------------- the simulated shell
@@ -733,6 +746,12 @@ impl World {
                 return true;
             }
         }
+        // the foreground command is over: a deferred signal is acted upon now
+        self.procs[pi].sleeping = false;
+        if let Some(sig) = self.procs[pi].pending_sig.take() {
+            self.finish(pid, ExitStatus::Signaled(sig), true);
+            return false;
+        }
         // 3. next op
         let (op, nonce) = {
             let r = self.procs[pi].cur.as_mut().unwrap();
@@ -763,6 +782,7 @@ impl World {
                 self.procs[pi].cur.as_mut().unwrap().repeat = Some((fd, unit.0, times));
             }
             Op::Sleep { ns } => {
+                self.procs[pi].sleeping = true;
                 self.schedule(self.now + ns, Ev::Step(pid));
                 return false;
             }
